@@ -81,6 +81,40 @@ def live_mismatches():
     return out, n
 
 
+def live_coroutine_mismatches():
+    """imported classes: no public sync method is a coroutine function; a public method of an async class is one iff it is not in the
+    audited plain list -> (set of (class key, method, what), set of live plain (class key, method))"""
+    from gen import c06 as G
+    plain = set(G.plain_async_methods())
+    out, live_plain = set(), set()
+    for key, srel, arel, classes in G.PAIRS:
+        sm = importlib.import_module(srel[:-3].replace("/", "."))
+        am = importlib.import_module(arel[:-3].replace("/", "."))
+        objs = [(f"module:{key}", sm, am, True)] + [(f"{key}:{sn}", getattr(sm, sn), getattr(am, an, None), False) for sn, an in classes]
+        for ckey, so, ao, is_mod in objs:
+            if ao is None:
+                continue
+            for side, o in (("sync", so), ("async", ao)):
+                for k, v in vars(o).items():
+                    f = v.__func__ if isinstance(v, (staticmethod, classmethod)) else v
+                    if not (G.is_public(k) and inspect.isfunction(f)) or (is_mod and getattr(f, "__module__", None) != o.__name__):
+                        continue
+                    src_file = (so if is_mod else importlib.import_module(o.__module__)).__file__ if side == "sync" else \
+                        (ao if is_mod else importlib.import_module(o.__module__)).__file__
+                    if inspect.unwrap(f).__code__.co_filename != src_file:      # generated by @dataclass (__init__, __repr__ ...): not in the source
+                        continue
+                    name = G.DUNDER_MAP.get(k, k)
+                    co = inspect.iscoroutinefunction(f)
+                    if side == "sync" and co:
+                        out.add((ckey, name, "coroutine function in a sync class"))
+                    if side == "async":
+                        if not co:
+                            live_plain.add((ckey, name))
+                        if co == ((ckey, name) in plain):
+                            out.add((ckey, name, "coroutine but audited as plain" if co else "plain function but not audited as plain"))
+    return out, live_plain
+
+
 # =====================================================================================================
 # part 2a: in-channel Telnet login — real loops vs Lean machines
 # =====================================================================================================
@@ -227,7 +261,7 @@ DEVPLAT = {"generic": "cisco_iosxe", "network": "cisco_iosxe"}
 HAS_EXEC = {"cisco_iosxe", "cisco_nxos", "arista_eos", "network"}
 CFG_LEVELS = {"cisco_iosxr": ["configuration_exclusive"], "juniper_junos": ["configuration_exclusive", "configuration_private"]}
 PAIR_OF_PLAT = {"generic": "driver_generic", "network": "driver_network"}
-CMDS = ["show version", "show run", "show clock", "show ambiguous", "show custom-bad", "show blank", "bogus", "echo a b  c", "echo r1# inside",
+CMDS = ["show ansi", "show version", "show run", "show clock", "show ambiguous", "show custom-bad", "show blank", "bogus", "echo a b  c", "echo r1# inside",
         "echo 100% [ok] (x) $HOME", "", "show version | i Software", "echo üß", "echo " + "y" * 300]
 CFGS = ["interface lo0", "description x", "bad line", "no shutdown", "hostname r1", "echo in-config", ""]
 CONFIRMS = {"clear logging": ["Clear logging buffer [confirm]", False], "copy run start": ["Destination filename [startup-config]? ", False],
@@ -706,7 +740,8 @@ def run(tier, seed):
                   "tools/gen/c06.py (AST extraction of signatures; normalisation rules of the twin comparison)",
                   "tools/harness/c06scen.py, simdevice.py, simtransport.py (one scenario interpreter, two trampolines; causal simulated device)",
                   "tools/harness/c06auth.py (scripted clock / scripted poll time-outs injected into scrapli.channel.* module globals)",
-                  "corpus/C06/audited_twin_diffs.json (human audit of the 23 twin functions that differ after normalisation)"]
+                  "corpus/C06/audited_twin_diffs.json (human audit of the twin functions / module shells that differ after normalisation), audited_plain_async_methods.json",
+                  "tools/gen/c06.py await discipline: the receiver-based resolution of coroutine callees (self/super()/conn/.channel/.transport + 5 listed externals)"]
     ck.assumptions = ["behavioural equality is shown on the executed scenarios and, for the login loop, on the modelled variants; not for arbitrary future "
                       "divergence inside twin methods (mitigated by pinning the set of differing twin functions)",
                       "asyncio.sleep inside the asyncio login loop is replaced by a zero-length sleep in simulated runs (waiting is not an observable of C06)",
@@ -765,6 +800,23 @@ def run(tier, seed):
             else:
                 ck.traces_validated += nmeth
             ck.extra["async_only_methods"] = [] if mout[1] == "-" else mout[1].split(";")
+        # coroutine-ness of the live classes (oracle) vs the AST flags of the generated table (model side: theorem coroutine_table)
+        co_bad, live_plain = live_coroutine_mismatches()
+        _st2, at2 = G.extract_tables()
+        ast_plain = {(k, m[0]) for k, _r, _b, ms in at2 for m in ms if not m[3]}
+        ck.extra["plain_methods_of_async_classes"] = sorted(map(list, live_plain))
+        if ast_plain != live_plain:
+            ck.disagree("isAsync flags (AST) vs inspect.iscoroutinefunction on the live classes", {"ast_only": sorted(ast_plain - live_plain), "live_only": sorted(live_plain - ast_plain)})
+        else:
+            ck.traces_validated += len(live_plain)
+        for x in sorted(co_bad):
+            ck.violation({"coroutine": list(x), "finding": None}, f"def / async def differs from the twin's contract: {x}", matcher)
+        # await discipline (what the pin's normaliser erases); the theorem await_discipline fails on the same list
+        aw = G.await_mismatches()
+        ck.extra["await_mismatches"] = [list(x) for x in aw]
+        ck.extra["awaits_seen"] = G.awaits_seen()
+        if aw:
+            ck.broken.append(("correspondence", "await discipline: a coroutine call is not awaited / something else is (async twin files)", {"mismatches": [list(x) for x in aw[:10]]}))
         # structural tie
         aud = set(G.audited())
         cur = G.twin_diffs()
@@ -775,7 +827,7 @@ def run(tier, seed):
         if unaudited:
             det = []
             for d in unaudited[:4]:
-                ss, sa = G.twin_sources(d[0], d[1], d[2])
+                ss, sa = G.twin_sources(d[0], d[1], d[2]) if d[1] != "module" else G.shell_sources(d[0])
                 det.append({"entry": list(d), "sync": (ss or "")[-1500:], "async": (sa or "")[-1500:]})
             ck.broken.append(("correspondence", "twin function pair differs and is not in the audited set (corpus/C06/audited_twin_diffs.json)", {"unaudited": det}))
         else:
@@ -908,8 +960,13 @@ def run(tier, seed):
     try:
         if "C06-F1" in open_ids and witness_f1():
             ck.known_finding("C06-F1", what["C06-F1"])
-        if "C06-F2" in open_ids and witness_f2():
-            ck.known_finding("C06-F2", what["C06-F2"])
+        ck.case(("telnet-timeout-zero",), nontrivial=True, tags=("rig=telnet-timeout-zero",))       # never generated (a defect here spins): bounded rig on every tree
+        if witness_f2():
+            ck.violation({"rig": "telnet-timeout-zero", "scenario": {"platform": "cisco_iosxe", "dev": {"platform": "cisco_iosxe"}, "telnet": {"user": "admin", "password": "pw"},
+                                                                      "conn": {"timeout_ops": 0}, "ops": [["open"]]}, "finding": "C06-F2"},
+                         "in-channel telnet login with timeout_ops=0: the sync stack logs in, the asyncio stack never reads and keeps writing returns (bounded run)", matcher)
+            if "C06-F2" in open_ids:
+                ck.known_finding("C06-F2", what["C06-F2"])
         modes = ("refused", "unresolvable", "timeout") if tier == "thorough" else ("refused", "timeout")
         f3 = witness_f3(modes)
         ck.extra["telnet_open_failure_exception_types"] = {k: list(v) for k, v in f3.items()}
@@ -920,33 +977,41 @@ def run(tier, seed):
                              f"Telnet transports raise different exception types when the connection cannot be established ({m}): {es} vs {ea}", matcher)
         if "C06-F3" in open_ids and any(es != ea for es, ea in f3.values()):
             ck.known_finding("C06-F3", what["C06-F3"])
-        if "C06-F4" in open_ids:
-            ok, det = witness_f4()
-            ck.extra["telnet_kick_rig"] = str(det)
-            if ok:
+        # the three timing / loss rigs run on every tree (regression cases once their finding is fixed); a difference is attributed
+        # to the finding only while it is open and only in the recorded shape
+        ok, det = witness_f4()
+        ck.extra["telnet_kick_rig"] = str(det)
+        ck.case(("telnet-kick",), nontrivial=True, tags=("rig=telnet-kick",))
+        if det[0][0] != det[1][0]:
+            ck.violation({"rig": "telnet-kick", "sync": det[0][0], "async": det[1][0], "finding": "C06-F4" if ok else None},
+                         f"console silent until it gets a return: sync {det[0][0]} vs asyncio {det[1][0]}", matcher)
+            if ok and "C06-F4" in open_ids:
                 ck.known_finding("C06-F4", what["C06-F4"])
-        if "C06-F5" in open_ids:
-            ok, det = witness_f5()
-            ck.extra["telnet_silent_rig"] = str(det)
-            if ok:
+        ok, det = witness_f5()
+        ck.extra["telnet_silent_rig"] = str(det)
+        ck.case(("telnet-silent",), nontrivial=True, tags=("rig=telnet-silent",))
+        if det[0] != det[1]:
+            ck.violation({"rig": "telnet-silent", "sync": det[0], "async": det[1], "finding": "C06-F5" if ok else None},
+                         f"real Telnet transports, device falls silent: exception types differ: {det[0]} vs {det[1]}", matcher)
+            if ok and "C06-F5" in open_ids:
                 ck.known_finding("C06-F5", what["C06-F5"])
-        if "C06-F6" in open_ids:
-            es, ea, trouble = T.drop_pair_subprocess(20)
-            ck.extra["telnet_drop_rig"] = str((es, ea, trouble))
-            if trouble is None:
-                ck.case(("telnet-drop", 20), nontrivial=True, tags=("rig=telnet-drop",))
-                if es != ea:
-                    known = all(x == y or (x == "ScrapliConnectionNotOpened" and y == "ScrapliConnectionError") for x, y in zip(es, ea)) and len(es) == len(ea)
-                    ck.violation({"rig": "telnet-drop", "drop_after": 20, "sync": es, "async": ea, "finding": "C06-F6" if known else None},
-                                 f"real Telnet transports, peer closes the session: exception types differ: {es} vs {ea}", matcher)
-                    if known:
-                        ck.known_finding("C06-F6", what["C06-F6"])
+        es, ea, trouble = T.drop_pair_subprocess(20)
+        ck.extra["telnet_drop_rig"] = str((es, ea, trouble))
+        if trouble is None:
+            ck.case(("telnet-drop", 20), nontrivial=True, tags=("rig=telnet-drop",))
+            if es != ea:
+                known = all(x == y or (x == "ScrapliConnectionNotOpened" and y == "ScrapliConnectionError") for x, y in zip(es, ea)) and len(es) == len(ea)
+                ck.violation({"rig": "telnet-drop", "drop_after": 20, "sync": es, "async": ea, "finding": "C06-F6" if known else None},
+                             f"real Telnet transports, peer closes the session: exception types differ: {es} vs {ea}", matcher)
+                if known and "C06-F6" in open_ids:
+                    ck.known_finding("C06-F6", what["C06-F6"])
     except Exception as e:      # noqa
         ck.extra["advisory_witness_replay_trouble"] = repr(e)
     phases['finding-witnesses'], tp = round(time.time() - tp, 1), time.time()
     # ---------------------------------------------------------------- 9 something no longer checks: widen the search for a failing input
     if ck.broken and not ck.violations:
-        directed_search(ck, tier, unaudited, S, T, A)
+        aim = list(unaudited) + [(x[0], "", x[1], "await", "") for x in (ck.extra.get("await_mismatches") or [])]
+        directed_search(ck, tier, aim, S, T, A)
     phases["widened-search"] = round(time.time() - tp, 1)
     ck.extra["phase_seconds"] = phases
     ck.extra["programs"] = ck.extra.get("programs", 0) + 2 * len(auth_cases)
@@ -1083,6 +1148,10 @@ def replay(path):
         print(json.dumps(r.get("no_longer_checks"), indent=1)[:4000])
         return 1
     case = r.get("violation", {}).get("case") or {}
+    if case.get("rig") == "telnet-timeout-zero":
+        r = witness_f2()
+        print("sync logs in, asyncio spins without reading:", r)
+        return 1 if r else 0
     if "scenario" in case and case.get("rig") == "real-telnet":
         s, a = T.run_pair(case["scenario"])
         d = T.compare_pair(s, a)
@@ -1098,6 +1167,10 @@ def replay(path):
         print("async:", [(o["op"], o.get("exc"), o.get("priv")) for o in a["ops"]], a["writes"][-6:])
         print("diffs:", rest, "known:", fid)
         return 1 if rest else 0
+    if "coroutine" in case:
+        bad, _ = live_coroutine_mismatches()
+        print(sorted(bad))
+        return 1 if tuple(case["coroutine"]) in bad else 0
     if "parity" in case:
         live, _ = live_mismatches()
         print("live mismatches:", sorted(live))
@@ -1120,6 +1193,14 @@ def replay(path):
         a = asyncio.run(A.run_async(tA, c["user"], c["password"], c["interval"]))
         print("sync ", s, "\nasync", a)
         return 1 if s != a else 0
+    if case.get("rig") == "telnet-silent":
+        ok, det = witness_f5()
+        print(det)
+        return 1 if det[0] != det[1] else 0
+    if case.get("rig") == "telnet-kick":
+        ok, det = witness_f4()
+        print(det)
+        return 1 if det[0][0] != det[1][0] else 0
     if case.get("rig") == "telnet-drop":
         es, ea, trouble = T.drop_pair_subprocess(case.get("drop_after", 20))
         print(es, ea, trouble)
